@@ -368,6 +368,7 @@ class Report:
         self.extra = []              # results of non-VC obligations (static tables, lemmas): dicts like VC results
         self.violations = []         # (obligation, replay_path, has_input)
         self.known = []              # text lines
+        self.known_obs = set()       # obligation base names attributed to a recorded known finding (NOT claimed as proved)
         self.undecided = []
         self.faults = []
         self.canaries = []
@@ -378,7 +379,10 @@ class Report:
         self.samples = []
 
     def evidence(self, module, level='proof'):
-        obs = [r for f in self.functions for r in f.results if r['kind'] != 'cover'] + self.extra
+        all_obs = [r for f in self.functions for r in f.results if r['kind'] != 'cover'] + self.extra
+        # the proof-level claim is about the obligations that are NOT recorded known findings; those are listed separately and never counted as proved
+        kf_obs = [r for r in all_obs if base_name(r['name']) in self.known_obs and r['verdict'] != 'unsat']
+        obs = [r for r in all_obs if not (base_name(r['name']) in self.known_obs and r['verdict'] != 'unsat')]
         dis = [r for r in obs if r['verdict'] == 'unsat']
         backends = {}
         for r in dis:
@@ -391,6 +395,10 @@ class Report:
                     for r in fails[:10]]
         cov = dict(
             obligations=len(obs), discharged=len(dis),
+            obligations_generated=len(all_obs),
+            known_finding_obligations=dict(count=len(kf_obs), not_claimed=sorted({base_name(r['name']) for r in kf_obs}),
+                                           note='instances of obligations that fail on this tree and are recorded in known_findings.json (witness replayed on this run); '
+                                                'they are excluded from `obligations`/`discharged` and are NOT part of what is claimed as proved'),
             checker_cmd=f'cd /verif && ./check {self.pid} --tier {self.tier}',
             trusted_base=sorted(self.trusted | {'lianvc VC generator (this repository)', 'z3 5.1.0 (python API); /usr/bin/z3 4.8.12 on unknown',
                                                 'Python-semantics encoding of DESIGN.md §2.2'}),
@@ -566,6 +574,7 @@ def run_property(modname, tier='quick', seed=0, rebaseline=False, only=None, can
                 line = f'KNOWN-FINDING: property={pid} {ob} {kf["what"]}'
                 if line not in rep.known:
                     rep.known.append(line)
+                rep.known_obs.add(ob)
                 continue
             rep.notes.append(f'known finding {kf["id"]} did not reproduce: {detail}')
         # look for a failing input on the real code
